@@ -42,12 +42,16 @@ def build_lean(targets):
 
 # the integer kernels of /repo/src whose re-translation (py/kernelgen.py -> Gen/Kernel.lean) the property's theorems use
 KERNELS_OF = {
-    "C02": ["into_range"],
+    "C01": ["insert_unchecked_cmds", "push_unchecked_cmds", "clear_cmds", "pop_consume_cmds", "remove_consume_cmds",
+            "swap_remove_consume_cmds"],
+    "C02": ["into_range", "drain_drop_cmds", "move_elements_at_cmds", "splice_drop_pre_cmds", "splice_drop_post_cmds"],
+    "C03": ["drop_elements_range_cmds", "temp_drop_cmds", "clear_cmds", "pop_new", "remove_new", "swap_remove_new"],
     "C10": ["reserve", "reserve_exact", "shrink_to_fit", "shrink_to", "heap_expand", "expand_exact_default"],
     "C11": ["stack_build", "stackn_build", "stackn_size", "reserve_one", "expand_one"],
     "C14": ["iter_len", "iter_next", "iter_next_back", "iter_clone"],
-    "C06": ["pop_new", "remove_new", "swap_remove_new", "drain_new", "splice_new"],
-    "C07": ["pop_new", "remove_new", "swap_remove_new", "drain_new", "splice_new"],
+    "C06": ["pop_new", "remove_new", "swap_remove_new", "drain_new", "splice_new", "insert_unchecked_cmds", "clear_cmds",
+            "temp_drop_cmds", "splice_drop_pre_cmds", "splice_drop_post_cmds"],
+    "C07": ["pop_new", "remove_new", "swap_remove_new", "drain_new", "splice_new", "temp_drop_cmds", "drain_drop_cmds"],
 }
 
 def regenerate_kernels():
